@@ -1,6 +1,7 @@
 package main
 
 import (
+	"fmt"
 	"go/token"
 	"strings"
 
@@ -92,6 +93,46 @@ func checkC20(p *Program, r *Result) {
 	}
 	if n == 0 {
 		r.undecided("C20.d", "mcap.indexedMessageIterator.NextInto", "call of loadChunk", "", "no call found")
+	}
+	// ---- e: the "load the next chunk before yielding" trigger only exists for the two time orders; in file order a
+	// chunk is loaded only when the queue is empty (one chunk in memory)
+	r.rule("C20.e", "early chunk loads are tied to an explicit time order", 2)
+	for _, m := range methodsOf(p, pkgMcap, "indexedMessageIterator") {
+		if m.Blocks == nil {
+			continue
+		}
+		for _, in := range instrsOf(m) {
+			b, ok := in.(*ssa.BinOp)
+			if !ok {
+				continue
+			}
+			switch b.Op {
+			case token.LSS, token.LEQ, token.GTR, token.GEQ:
+			default:
+				continue
+			}
+			chunkTime := func(v ssa.Value) bool {
+				return loadOfField(v, "ChunkIndex", "MessageStartTime") || loadOfField(v, "ChunkIndex", "MessageEndTime")
+			}
+			headTime := func(v ssa.Value) bool {
+				if loadOfField(v, "messageIndexWithChunkSlot", "timestamp") {
+					return true
+				}
+				_, isParam := v.(*ssa.Parameter)
+				return isParam
+			}
+			if !(chunkTime(b.X) && headTime(b.Y) || chunkTime(b.Y) && headTime(b.X)) {
+				continue
+			}
+			k := orderConstOf(in)
+			construct := "load trigger " + valueLabel(b.X) + " " + b.Op.String() + " " + valueLabel(b.Y)
+			if k == 1 || k == 2 {
+				r.held("C20.e", funcName(m), construct, p.pos(b.Pos()), fmt.Sprintf("evaluated only under it.order == %d", k))
+			} else {
+				r.violated("C20.e", funcName(m), construct, p.pos(b.Pos()),
+					"the comparison that makes NextInto load the next chunk before yielding is not tied to LogTimeOrder/ReverseLogTimeOrder; in file order later chunks are decompressed while earlier ones are still pending (memory grows with the file)")
+			}
+		}
 	}
 }
 
